@@ -4,6 +4,7 @@ pub mod c01;
 pub mod c02;
 pub mod c03;
 pub mod c04;
+pub mod c08;
 pub mod c10;
 pub mod c11;
 pub mod c12;
@@ -69,6 +70,7 @@ pub fn dispatch(prop: &str, tier: Tier, replay: Option<String>) -> i32 {
         "C05" => e2props::c05(tier, replay),
         "C06" => e2props::c06(tier, replay),
         "C07" => e2props::c07(tier, replay),
+        "C08" => c08::run_check(tier, replay),
         "C09" => e2props::c09(tier, replay),
         "C19" => e2props::c19(tier, replay),
         "C10" => c10::run(tier, replay),
